@@ -34,7 +34,10 @@ RULE = ("(1) one interval-arithmetic certificate (a Coq lemma |model expression 
         "jacobian(dtype = default | float64 | float32) of Spline / VectorSpline2D / Trend in equal shares on metre-spaced "
         "coordinates at offsets 0 .. 1e7 spacings (UTM-like): default and float64 bit-equal to the double-precision jacobian of "
         "the coordinates translated to the origin, float32 within 2^-22 of it entry by entry (and certificates against the exact "
-        "kernel with + 2^-22 |entry|); (2) predict against jacobian x parameters exactly on dyadics for externally set and fitted parameters and "
+        "kernel with + 2^-22 |entry|); in the predict streams the public jacobian is called between fit and predict with other "
+        "coordinates / a different number of other force coordinates and with the fitted ones (alternating order): fitted "
+        "attributes (force_coords_ / force_coords, force_, coef_, region_) must be unchanged after each call and predict must "
+        "equal jacobian(query, fitted forces) x parameters; (2) predict against jacobian x parameters exactly on dyadics for externally set and fitted parameters and "
         "1-D / 2-D / scalar-broadcast query shapes (Spline, VectorSpline2D, Trend); (3) Trend.jacobian columns against exact "
         "monomials in the documented order for degrees 0..6(8) and polynomial_power_combinations against the model (generator + "
         "stable sort) and the closed form; (4) jacobians of dyadically shifted coordinates bit-equal; (5) Linear/Cubic against "
@@ -371,7 +374,7 @@ def elastic_samples(vd, rnd, tier):
     # the documented special parameter values, all combinations: poisson in {-1, 0, 1} x mindist in {0, default 10e3, 1}
     for nu in SPECIAL_NU:
         for md in (0.0, 10e3, 1.0):
-            rs = [0.5, 1e4] if tier == "quick" else [1e-3, 0.5, 1.0, E_DOUBLE, 30.0, 1e4, 1e6]
+            rs = [[0.5], [1e4]][(k // 1) % 2] if tier == "quick" else [1e-3, 0.5, 1.0, E_DOUBLE, 30.0, 1e4, 1e6]
             for r in rs:
                 k += 1
                 dx, dy = _directions(rnd, r * rnd.uniform(0.7, 1.4))[3 + k % 2]
@@ -460,7 +463,7 @@ def checker_samples(vd, rnd, tier):
 # ---------------------------------------------------------------------------
 DTYPES = [None, "float64", "float32"]
 # (east offset, north offset) in units of the spacing: 0 .. 1e7
-OFFSETS = [(0.0, 0.0), (1e3, -2e3), (5e5, 7.5e6), (-3.2e5, 4.1e6), (1e7, 1e7), (64.0, 1e5)]
+OFFSETS = [(0.0, 0.0), (5e5, 7.5e6), (1e3, -2e3), (-3.2e5, 4.1e6), (1e7, 1e7), (64.0, 1e5)]
 F32 = 2.0 ** -22
 
 
@@ -489,7 +492,7 @@ def dtype_samples(vd, rnd, tier):
     """certificates for entries of jacobian(..., dtype=...): for float32 the exact kernel of the DOUBLE coordinates must be met
     within the double-precision budget + 2^-22 |entry| (a few single-precision ulps), never looser"""
     certs = []
-    n = 18 if tier == "quick" else 90
+    n = 12 if tier == "quick" else 90
     for k in range(n):
         dt = DTYPES[k % 3]
         vector = bool((k // 3) % 2)
@@ -608,6 +611,43 @@ def _query(rnd, shape_kind, lo=-20.0, hi=20.0):
 SHAPES = ["1d", "2d", "grid"]
 
 
+def _eq(a, b):
+    if isinstance(a, (tuple, list)) or isinstance(b, (tuple, list)):
+        return isinstance(a, (tuple, list)) and isinstance(b, (tuple, list)) and len(a) == len(b) and all(_eq(x, y) for x, y in zip(a, b))
+    a, b = np.asarray(a), np.asarray(b)
+    return bool(a.shape == b.shape and np.array_equal(a, b))
+
+
+def _snapshot(g, names):
+    import copy
+    return {k: copy.deepcopy(getattr(g, k)) for k in names}
+
+
+def _poke_jacobian(g, rnd, names, fitted_forces, idx):
+    """call the PUBLIC jacobian between fit and predict - with other coordinates / other force coordinates and with the fitted
+    ones, in alternating order - and report whether any fitted attribute changed.  Calling jacobian must not change what
+    predict returns."""
+    snap = _snapshot(g, names)
+    k = rnd.randint(1, 5)
+    oe = np.array([rnd.uniform(-30, 30) for _ in range(k)]); on = np.array([rnd.uniform(-30, 30) for _ in range(k)])
+    calls = ["other", "fitted"] if idx % 2 == 0 else ["fitted", "other"]
+    changed = []
+    with warnings.catch_warnings():
+        warnings.simplefilter("ignore")
+        for c in calls:
+            if fitted_forces is None:         # Trend: coordinates only
+                g.jacobian((oe, on) if c == "other" else (oe[:1] * 0.5, on[:1] * 0.5))
+            elif c == "other":
+                mf = len(np.atleast_1d(fitted_forces[0])) + rnd.randint(1, 3)    # a different number of forces
+                g.jacobian((oe, on), (np.array([rnd.uniform(-40, 40) for _ in range(mf)]), np.array([rnd.uniform(-40, 40) for _ in range(mf)])))
+            else:
+                g.jacobian((oe, on), fitted_forces)
+            for name in names:
+                if not _eq(getattr(g, name), snap[name]):
+                    changed.append("%s changed by jacobian(%s ...)" % (name, c))
+    return (not changed), " then ".join("jacobian(%s)" % c for c in calls), sorted(set(changed))
+
+
 def _ls_ok(force, J, data, damping):
     """the fitted forces are least_squares(jacobian, data, None, damping) for the damping IN FORCE at fit time"""
     from verde.base.least_squares import least_squares
@@ -651,21 +691,27 @@ def predict_spline_case(vd, rnd, fitted, kind, idx=0):
             sp.force_coords_ = (fe, fn)
             sp.force_ = np.array([rnd.choice([rnd.uniform(-3, 3), rnd.uniform(-1e3, 1e3), 0.0, 1.0]) for _ in range(m)])
             sp.region_ = (-20, 20, -20, 20)
+        fitted_fc = tuple(np.array(a, dtype=float) for a in sp.force_coords_)
+        attrs_ok, poked, changed = _poke_jacobian(sp, rnd, ("force_coords_", "force_", "region_"), fitted_fc, idx)
         y = sp.predict((qe, qn))
-        J = sp.jacobian((qe, qn), sp.force_coords_)
+        J = sp.jacobian((qe, qn), fitted_fc)
         # the kernel must be the one of the mindist in force: a constructor-configured reference instance, bit for bit
         Jref = vd.Spline(mindist=md if md else None).jacobian((qe, qn), (fe, fn))
         opts_ok = bool(opts_ok and J.shape == Jref.shape and np.array_equal(J, Jref, equal_nan=True))
-    shape_ok = (y.shape == qe.shape) and J.shape == (qe.size, m) and opts_ok
+    shape_ok = (y.shape == qe.shape) and J.shape == (qe.size, m) and opts_ok and attrs_ok
     term = ("c03_predict %s %s %s %s" % (cmat(J), cvec(sp.force_), cvec(y), cbool(shape_ok))) if _fin(J, sp.force_, y) else "c03_flag false"
-    inp = {"gridder": "Spline", "configured": how, "mindist": md, "damping": damping, "force_coords_option": bool(use_fc), "fitted": fitted,
+    inp = {"gridder": "Spline", "configured": how, "between_fit_and_predict": poked, "mindist": md, "damping": damping, "force_coords_option": bool(use_fc), "fitted": fitted,
            "force_east": fe.tolist(), "force_north": fn.tolist(),
            "force": sp.force_.tolist(), "query_east": qe.tolist(), "query_north": qn.tolist()}
     repro = ("import verde, numpy as np, warnings; warnings.simplefilter('ignore'); s = verde.Spline(mindist=%r); "
              "s.force_coords_ = (np.array(%r), np.array(%r)); s.force_ = np.array(%r); q = (np.array(%r), np.array(%r)); "
-             "print(s.predict(q).ravel() - s.jacobian(q, s.force_coords_) @ s.force_)  # options configured by: %s"
-             % (md if md else None, fe.tolist(), fn.tolist(), sp.force_.tolist(), qe.tolist(), qn.tolist(), how))
-    return Case(inp, {"predict": np.asarray(y).ravel().tolist(), "options_honoured": bool(opts_ok)}, term, repro, kind)
+             "fc = s.force_coords_; s.jacobian((np.array([1., 2.]), np.array([3., 4.])), (np.arange(%d.), np.arange(%d.)))  # a public "
+             "jacobian call with other force coordinates must not change predict\n"
+             "print(s.predict(q).ravel() - verde.Spline(mindist=%r).jacobian(q, fc) @ s.force_)  # options configured by: %s; sequence: %s"
+             % (md if md else None, fe.tolist(), fn.tolist(), sp.force_.tolist(), qe.tolist(), qn.tolist(), m + 2, m + 2,
+                md if md else None, how, poked))
+    return Case(inp, {"predict": np.asarray(y).ravel().tolist(), "options_honoured": bool(opts_ok),
+                      "fitted_attributes_unchanged_by_jacobian": bool(attrs_ok), "changed": changed}, term, repro, kind)
 
 
 def predict_vector_case(vd, rnd, fitted, kind, idx=0):
@@ -706,13 +752,15 @@ def predict_vector_case(vd, rnd, fitted, kind, idx=0):
         vs.force_coords = (fe, fn)
         vs.force_ = np.array([rnd.choice([rnd.uniform(-3, 3), rnd.uniform(-1e3, 1e3), 0.0, 1.0]) for _ in range(2 * m)])
         vs.region_ = (-20, 20, -20, 20)
+    fitted_fc = tuple(np.array(a, dtype=float) for a in vs.force_coords)
+    attrs_ok, poked, changed = _poke_jacobian(vs, rnd, ("force_coords", "force_", "region_"), fitted_fc, idx)
     ye, yn = vs.predict((qe, qn))
-    J = vs.jacobian((qe, qn), vs.force_coords)
+    J = vs.jacobian((qe, qn), fitted_fc)
     Jref = vd.VectorSpline2D(poisson=nu, mindist=md).jacobian((qe, qn), (fe, fn))   # the kernel of the options in force
     opts_ok = bool(opts_ok and J.shape == Jref.shape and np.array_equal(J, Jref, equal_nan=True))
-    shape_ok = (ye.shape == qe.shape) and (yn.shape == qe.shape) and J.shape == (2 * qe.size, 2 * m) and opts_ok
+    shape_ok = (ye.shape == qe.shape) and (yn.shape == qe.shape) and J.shape == (2 * qe.size, 2 * m) and opts_ok and attrs_ok
     term = ("c03_predict2 %s %s %s %s %s" % (cmat(J), cvec(vs.force_), cvec(ye), cvec(yn), cbool(shape_ok))) if _fin(J, vs.force_, ye, yn) else "c03_flag false"
-    inp = {"gridder": "VectorSpline2D", "configured": how, "force_coords_option": bool(use_fc), "mindist": md, "poisson": nu, "fitted": fitted, "force_east": fe.tolist(),
+    inp = {"gridder": "VectorSpline2D", "configured": how, "between_fit_and_predict": poked, "attributes_changed": changed, "force_coords_option": bool(use_fc), "mindist": md, "poisson": nu, "fitted": fitted, "force_east": fe.tolist(),
            "force_north": fn.tolist(), "force": vs.force_.tolist(), "query_east": qe.tolist(), "query_north": qn.tolist()}
     repro = ("import verde, numpy as np; s = verde.VectorSpline2D(poisson=%r, mindist=%r); "
              "s.force_coords = (np.array(%r), np.array(%r)); s.force_ = np.array(%r); q = (np.array(%r), np.array(%r)); "
@@ -747,7 +795,7 @@ def trend_jac_case(vd, rnd, N, kind):
                 kind)
 
 
-def trend_predict_case(vd, rnd, N, fitted, kind):
+def trend_predict_case(vd, rnd, N, fitted, kind, idx=0):
     ncoef = (N + 1) * (N + 2) // 2
     shape_kind = rnd.choice(SHAPES)
     qe, qn = _query(rnd, shape_kind, -3.0, 3.0)
@@ -760,10 +808,11 @@ def trend_predict_case(vd, rnd, N, fitted, kind):
     else:
         tr.coef_ = np.array([rnd.choice([rnd.uniform(-3, 3), 0.0, 1.0, rnd.uniform(-100, 100)]) for _ in range(ncoef)])
         tr.region_ = (-3, 3, -3, 3)
+    attrs_ok, poked, changed = _poke_jacobian(tr, rnd, ("coef_", "region_", "degree"), None, idx)
     y = tr.predict((qe, qn))
-    shape_ok = y.shape == qe.shape
+    shape_ok = y.shape == qe.shape and attrs_ok
     term = ("c03_trend_predict %s %s %s %s %s %s" % (cN(N), cvec(qe), cvec(qn), cvec(tr.coef_), cvec(y), cbool(shape_ok))) if _fin(tr.coef_, y) else "c03_flag false"
-    return Case({"fn": "Trend.predict", "configured": how, "degree": N, "fitted": fitted, "coef": np.asarray(tr.coef_).tolist(),
+    return Case({"fn": "Trend.predict", "configured": how, "between_fit_and_predict": poked, "attributes_changed": changed, "degree": N, "fitted": fitted, "coef": np.asarray(tr.coef_).tolist(),
                  "east": qe.tolist(), "north": qn.tolist()}, {"predict": np.asarray(y).ravel().tolist()}, term,
                 "import verde, numpy as np; t = verde.Trend(degree=%d); t.coef_ = np.array(%r); print(t.predict((np.array(%r), np.array(%r))))"
                 % (N, np.asarray(tr.coef_).tolist(), qe.tolist(), qn.tolist()), kind)
@@ -907,7 +956,7 @@ def generate(tier, seed):
     for rep in range(1 if quick else 8):
         for N in range(0, 7 if quick else 9):
             cases += _guard(trend_jac_case, "trend-jacobian", vd, rnd, N, "trend-jacobian")
-            cases += _guard(trend_predict_case, "trend-predict", vd, rnd, N, fitted=bool((N + rep) % 2), kind="trend-predict")
+            cases += _guard(trend_predict_case, "trend-predict", vd, rnd, N, fitted=bool((N + rep) % 2), kind="trend-predict", idx=N + rep + (N // 2))
     for i in range(18 if quick else 72):
         for which in ("spline", "vector", "trend"):
             cases += _guard(dtype_case, "jacobian-dtype-" + which, vd, rnd, which, i)
@@ -929,4 +978,13 @@ def generate(tier, seed):
 
 
 def search(dis, tier, seed):
-    return generate("quick", seed + 1)
+    """look harder: the quick generator with another seed plus extra fit -> public jacobian (other / fitted force
+    coordinates) -> predict sequences for Spline, VectorSpline2D and Trend"""
+    import verde as vd
+    cases = generate("quick", seed + 1)
+    rnd = random.Random(seed + 2)
+    for i in range(40):
+        cases += _guard(predict_spline_case, "predict-spline", vd, rnd, fitted=bool(i % 2), kind="predict-spline", idx=i)
+        cases += _guard(predict_vector_case, "predict-vector", vd, rnd, fitted=bool(i % 2), kind="predict-vector", idx=i)
+        cases += _guard(trend_predict_case, "trend-predict", vd, rnd, i % 5, fitted=bool(i % 2), kind="trend-predict", idx=i // 2)
+    return cases
